@@ -20,8 +20,11 @@ THEOREMS = [_T + n for n in [
     "timeout_res_stable", "with_timeout_before", "with_timeout_after", "with_timeout_no_deadline",
     "waititer_refuted",
     "chain_cf_copies", "chain_cf_never_pending", "with_timeout_cf_no_deadline",
+    "multi_outcome", "multi_settles", "multi_not_early", "multi_out_correct", "multi_drains", "multi_never_pending",
+    "waititer_partial", "waititer_all_yielded", "waititer_never_pending", "waititer_next_yields",
+    "waititer_outcomes", "waititer_yields_spec",
 ]]
-GOALS = ["multi_settles_goal", "multi_outcome_goal", "multi_not_early_goal", "waititer_partial_goal"]   # tie only
+GOALS = []   # nothing is tie-only any more (all former `*_goal` statements are theorems)
 TRUSTED = [
     "asyncio.Future / event loop abstraction of C36/Model.lean: settled futures never change; done-callbacks are "
     "call_soon'ed in registration order when the future settles and run on a later iteration; one iteration runs "
@@ -57,12 +60,14 @@ RULE = ("complete enumeration of <=4 inputs x {result,exception,cancelled} x all
         "settles after construction and the output is observed settled")
 EXHAUSTIVE = {"quick": True, "thorough": True}
 CLAUSES = {
-    "multi resolves once all inputs are done": "tie only (exhaustive <=4 inputs): multi_settles_goal, multi_not_early_goal",
+    "multi resolves once all inputs are done": "multi_settles + multi_not_early (all children lists, initial states "
+                                               "and schedules; reachability invariant Multi.Inv)",
     "with results in input order (or by dict key) or the exception of the first failing input in order "
-    "(cancelled = CancelledError)": "multi_finish_spec + multi_last_callback + multi_out_stable (the computation, any "
-                                    "children list); reachability of that step: tie only (multi_outcome_goal); dict keys: tie only",
+    "(cancelled = CancelledError)": "multi_outcome + multi_out_correct (every schedule; step lemmas multi_finish_spec, "
+                                    "multi_last_callback, multi_out_stable); dict keys: tie only",
     "WaitIterator yields every input exactly once in completion order with the matching index":
-        "tie only (waititer_partial_goal); false for duplicate arguments: waititer_refuted (known finding)",
+        "waititer_partial + waititer_all_yielded + waititer_outcomes + waititer_yields_spec + waititer_next_yields (arguments without duplicates, every schedule; "
+        "invariant Wait.Inv); false for duplicate arguments: waititer_refuted (known finding)",
     "with_timeout settles with the input's outcome if it finishes before the deadline and with TimeoutError otherwise":
         "with_timeout_before + with_timeout_after + with_timeout_no_deadline + timeout_res_stable",
     "a chained future copies its source's outcome, including cancellation, unless already done":
@@ -70,7 +75,8 @@ CLAUSES = {
     "none is left pending forever once its inputs are done":
         "chain_never_pending, chain_cf_never_pending; with_timeout_before/after/no_deadline, "
         "with_timeout_cf_no_deadline (result settled in every case); "
-        "multi / WaitIterator: tie only",
+        "multi: multi_settles, multi_drains + multi_never_pending; WaitIterator (distinct arguments): "
+        "waititer_never_pending + waititer_next_yields",
 }
 PARALLEL = False   # a case costs ~0.2 ms; forking workers is slower than running them in-process
 CASE_TIMEOUT = 20
